@@ -1,18 +1,22 @@
 """C18 — The dependency-GIR cache never serves stale or torn data.
 
 Proof: lean/GIVerif/Props/C18.lean over the step model lean/GIVerif/Model/Cache.lean
-(one atomic step per system call of giscanner/cachestore.py, any number of processes).
+(one atomic step per system call of giscanner/cachestore.py and of the call site
+Transformer._parse_include, any number of processes).
 
-Tie: (1) translators/gen_cache.py re-reads the six functions of cachestore.py (text shape,
-the two mtime comparisons, swallowed errnos, fstat-vs-stat) on every run; (2) a
-controlled-schedule executor runs the REAL CacheStore.store / load / CacheStore() in worker
-threads whose system calls (inside the giscanner.cachestore namespace only) block until the
-scheduler grants them, on a real scratch directory with mtimes taken from a logical clock;
+Tie: (1) translators/gen_cache.py re-reads the six functions of cachestore.py (text shape, the two
+mtime comparisons, swallowed errnos, fstat-vs-stat, where the temporary file is made, how it is
+published and stamped) and the call site on every run; (2) a controlled-schedule executor runs the
+REAL CacheStore.store / load / CacheStore() in worker threads whose system calls (inside the
+giscanner.cachestore namespace only) block until the scheduler grants them, on a real scratch
+directory with mtimes taken from a logical clock; a store is driven as the call site drives it
+(stat of the source at spawn, read of the source as a step of its own, store(filename, parse, mtime));
 every schedule is also run by the Lean step function (driver op c18.run) and the system-call
-traces, per-operation outcomes, load results and final directory contents are compared; a
-schedule flag `xdev` makes renames from TMPDIR into the cache directory fail with EXDEV so that
-the publish step takes its copy fall-back (non-atomic, in place);
-(3) an oracle written from the property statement is evaluated on the real results.
+traces, per-operation outcomes, load results and final directory contents (entry, stamp, temporary
+files lying in the cache directory) are compared;
+(3) an oracle written from the property statement is evaluated on the real results;
+(4) harness/c18_replays.py replays the former findings on REAL file systems (TMPDIR on tmpfs, cache on
+disk: a genuine EXDEV) through Transformer._parse_include, with no scheduler: they must all pass.
 
 Inputs: corpus; directed schedule families whose step counts are MEASURED on the real code (late publish of an
 old parse by a held-back store + a second store + a loader; a version check stopped after each of its system
@@ -25,11 +29,13 @@ Only the public surface of giscanner.cachestore is used (CacheStore(), .store, .
 scanner version is steered through sys.argv[0]'s mtime (an input of the version hash).
 """
 import errno
+import inspect
 import itertools
 import json
 import os
 import pickle as real_pickle
 import shutil as real_shutil
+import subprocess
 import sys
 import tempfile as real_tempfile
 import threading
@@ -41,36 +47,20 @@ from core import REPO, VERIF, Counter, HarnessError
 BASE = 1000000000          # logical clock 0 as an epoch time
 SRC_NAME = 'Dep-1.0.gir'
 PATCHED = ('os', 'shutil', 'tempfile', 'pickle')
+TMP_PREFIX = 'g-ir-scanner-cache-'
+VTMP_PREFIX = 'g-ir-scanner-cache-version-'
 
-# Real violations of the property on the unchanged tree, reported in the final message of the
-# C18 work package; the integrator moves them to known_findings.json (or commits a fix).
+# The one class of histories on which the code (and any scheme that recognises the source by its mtime)
+# violates the statement; recorded in known_findings.json.
 PENDING_FINDINGS = [
-    {'key': 'C18_fresh:parse-read-before-modification-stamped-at-store-time',
-     'what': 'CacheStore.store stamps an entry with the time of WRITING, not the time the source was read: '
-             'parse v1, source becomes v2, store(parse v1) -> every later load returns parse(v1) although v2 '
-             'has been current since before the load began (Lean: C18_fresh_counterexample)'},
-    {'key': 'C18_fresh:source-modified-within-the-timestamp-of-the-entry',
-     'what': 'freshness test accepts equal mtimes (store_mtime >= source mtime, load rejects only <): a source '
-             'modified in the same timestamp granule as the entry was written is served stale '
-             '(Lean: C18_fresh_equal_mtime_counterexample)'},
-    {'key': 'C18_no_raise:cross-device-copystat-after-entry-unlinked',
-     'what': 'TMPDIR and cache directory on different file systems: shutil.move copies to the final name '
-             '(non-atomically); a loader that reads the half-copied entry unlinks it, then copystat(path) fails with '
-             'ENOENT and CacheStore.store re-raises it (only EACCES is handled) '
-             '(Lean: C18_xdev_raise_counterexample)'},
-    {'key': 'C18_fresh:cross-device-entry-visible-before-copystat',
-     'what': 'TMPDIR and cache directory on different file systems: between copyfile and copystat the entry is '
-             'complete under its final name with the mtime of the COPY (not of the temp file), and an entry that is '
-             'open in a loader is overwritten in place: a parse older than the source is served '
-             '(Lean: C18_xdev_stale_counterexample)'},
-    {'key': 'C18_fresh:source-replaced-by-a-file-carrying-an-older-mtime',
-     'what': 'freshness is inferred from "the entry was written after the source was last modified": a source that is '
-             'REPLACED by a file carrying an mtime older than the entry (installed with its build time preserved: '
-             'cp -p, install -p, meson install, tar x, a distribution package built before the last scan) leaves the '
-             'entry "fresh" and every later load returns the parse of the replaced file '
-             '(Lean: C18_fresh_older_mtime_counterexample)'},
+    {'key': 'C18_fresh:two-source-versions-with-one-mtime-and-a-read-in-between',
+     'what': 'a cache entry is recognised as the parse of the current source by the source\'s mtime: when the source '
+             'gets a new version that carries the SAME mtime as the version a scanner has just stat\'ed and parsed '
+             '(rewritten within one timestamp granule, or replaced by a file carrying that very mtime), the entry made '
+             'from the old version carries "the mtime the source has now" and every later load returns the parse of '
+             'the old version (Lean: C18_fresh_counterexample; C18_fresh_partial holds under histDistinctMtimes)'},
 ]
-KEY_STAMP, KEY_EQUAL, KEY_XRAISE, KEY_XSTALE, KEY_OLDER = [p['key'] for p in PENDING_FINDINGS]
+KEY_SAME = PENDING_FINDINGS[0]['key']
 
 
 class Parse(object):
@@ -192,11 +182,15 @@ class OsProxy(object):
         w = cur()
         if w is not None:
             w.park('rename')
-            if self._ex.crossing(a, b):
-                raise OSError(errno.EXDEV, 'Invalid cross-device link', a, None, b)
         return os.rename(a, b, *x, **k)
 
     replace = rename
+
+    def utime(self, path, *a, **k):
+        w = cur()
+        if w is not None:
+            w.park('utime')
+        return os.utime(path, *a, **k)
 
     def fdopen(self, fd, *a, **k):
         real = os.fdopen(fd, *a, **k)
@@ -206,11 +200,8 @@ class OsProxy(object):
 
 
 class ShutilProxy(object):
-    """shutil.move is the publish step.  Same device: one rename.  Across devices (schedule flag
-    `xdev`) the rename fails with EXDEV and CPython's shutil.move falls back to copy2 + unlink;
-    that fall-back is transcribed here step by step (copyfile = open-truncate, chunked write, close;
-    copystat = utime BY PATH with the source's times; unlink) so that every system call is a
-    scheduled step and every mtime comes from the logical clock."""
+    """shutil.move is how the version stamp is put in place (its temporary file is in TMPDIR, assumed on the
+    same device as the cache directory: one rename)"""
 
     def __init__(self, ex):
         self._ex = ex
@@ -218,76 +209,11 @@ class ShutilProxy(object):
     def __getattr__(self, name):
         return getattr(real_shutil, name)
 
-    def _copyfile_steps(self, w, src, dst):
-        with builtins.open(src, 'rb') as f:
-            data = f.read()
-        w.park('open_w')
-        fdst = builtins.open(dst, 'wb')
-        try:
-            self._ex.stamp_fd(fdst.fileno())
-            if dst == self._ex.entry_path:
-                w.copy_open_idx = w.steps[-1][0]
-            half = len(data) // 2
-            for chunk in (data[:half], data[half:]):
-                w.park('write')
-                fdst.write(chunk)
-                fdst.flush()
-                self._ex.stamp_fd(fdst.fileno())
-            w.park('close')
-        finally:
-            fdst.close()
-
-    def _copystat_step(self, w, src, dst):
-        w.park('copystat')
-        w.copystat_idx = w.steps[-1][0]
-        st = os.stat(src)
-        os.utime(dst, ns=(st.st_atime_ns, st.st_mtime_ns))
-
     def move(self, src, dst, *a, **k):
         w = cur()
-        if w is None:
-            return real_shutil.move(src, dst, *a, **k)
-        w.park('rename')
-        if not self._ex.crossing(src, dst):
-            return real_shutil.move(src, dst, *a, **k)
-        self._copyfile_steps(w, src, dst)
-        self._copystat_step(w, src, dst)
-        w.park('unlink')
-        os.unlink(src)
-        return dst
-
-    def copyfile(self, src, dst, *a, **k):
-        w = cur()
-        if w is None:
-            return real_shutil.copyfile(src, dst, *a, **k)
-        self._copyfile_steps(w, src, dst)
-        return dst
-
-    def copy(self, src, dst, *a, **k):
-        w = cur()
-        if w is None:
-            return real_shutil.copy(src, dst, *a, **k)
-        self._copyfile_steps(w, src, dst)
-        return dst
-
-    def copy2(self, src, dst, *a, **k):
-        w = cur()
-        if w is None:
-            return real_shutil.copy2(src, dst, *a, **k)
-        self._copyfile_steps(w, src, dst)
-        self._copystat_step(w, src, dst)
-        return dst
-
-    def copyfileobj(self, fsrc, fdst, *a, **k):
-        data = fsrc.read()
-        fdst.write(data)
-        w = cur()
-        if w is not None and not isinstance(fdst, FileProxy):
-            try:
-                fdst.flush()
-                self._ex.stamp_fd(fdst.fileno())
-            except Exception:
-                pass
+        if w is not None:
+            w.park('rename')
+        return real_shutil.move(src, dst, *a, **k)
 
 
 class TempfileProxy(object):
@@ -302,9 +228,18 @@ class TempfileProxy(object):
         if w is None:
             return real_tempfile.mkstemp(*a, **k)
         w.park('mkstemp')
-        if len(a) < 3:
-            k.setdefault('dir', self._ex.tmpdir)
-        fd, name = real_tempfile.mkstemp(*a, **k)
+        d = k.get('dir') if len(a) < 3 else a[2]
+        if d is not None and os.path.abspath(d) == self._ex.cachedir:
+            # in the cache directory: names in creation order, so that the sorted listing of a purge is the
+            # order the model assumes (entry, then temporary files as created); still unique and O_EXCL
+            prefix = k.get('prefix') if len(a) < 2 else a[1]
+            self._ex.tmp_counter += 1
+            name = os.path.join(self._ex.cachedir, '%s%06d' % (prefix or 'tmp', self._ex.tmp_counter))
+            fd = os.open(name, os.O_RDWR | os.O_CREAT | os.O_EXCL, 0o600)
+        else:
+            if d is None:
+                k['dir'] = self._ex.tmpdir
+            fd, name = real_tempfile.mkstemp(*a, **k)
         self._ex.stamp_fd(fd)
         return fd, name
 
@@ -416,8 +351,7 @@ class Worker(object):
         self.spawn_index = None
         self.parse = None
         self.dump_done = None       # event index of the write that completed the temp file
-        self.copy_open_idx = None   # cross-device: event index of the open-truncate of the entry
-        self.copystat_idx = None
+        self.v_spawn = None         # source version current when the operation was spawned (store: stat'ed)
 
     def start(self):
         if POOL:
@@ -473,9 +407,8 @@ class Executor(object):
         self.stamp_texts = {}
         self.stores = {}
         self.unpatched = []
-        self.xdev = False
+        self.tmp_counter = 0
         try:
-            import inspect
             params = list(inspect.signature(cachestore.CacheStore.store).parameters)
             self.store_takes_mtime = len(params) >= 4
             self.store_takes_ns = self.store_takes_mtime and params[3].endswith('_ns')
@@ -512,13 +445,6 @@ class Executor(object):
         sys.argv[0] = self.saved_argv0
 
     # ---- helpers ----------------------------------------------------------------------
-    def crossing(self, src, dst):
-        """would a rename src -> dst cross the (simulated) device boundary TMPDIR | cache directory?"""
-        if not self.xdev:
-            return False
-        a, b = os.path.dirname(os.path.abspath(src)), os.path.dirname(os.path.abspath(dst))
-        return a != b and (a == self.cachedir) != (b == self.cachedir)
-
     def sweep(self):
         """whatever the code under test created or wrote through a path the proxies do not stamp gets
         its mtime from the logical clock as well"""
@@ -595,7 +521,7 @@ class Executor(object):
             self.stamp_text(sv)
             self.store_obj(sv)
         self.clean_dirs()
-        self.xdev = bool(init.get('xdev'))
+        self.tmp_counter = 0
         self.registry = []
         self.clock = init['clock']
         self.ver = init['ver']
@@ -641,7 +567,6 @@ class Executor(object):
         obs['_workers'] = workers
         obs['_mods_at'] = self.mods_at
         obs['_mod_version'] = dict(self.mod_version)
-        obs['_xdev'] = self.xdev
         obs['_src_mtimes'] = dict(self.src_mtimes)
         return obs
 
@@ -682,23 +607,26 @@ class Executor(object):
                 cs = self.store_obj(sver)
                 parse = None
                 if op == 'store':
-                    # what Transformer._parse_include does before it calls store: (observe the mtime of
-                    # the source,) read it; a store that takes that mtime as third argument gets it
+                    # what Transformer._parse_include does: observe the mtime of the source (now, at spawn),
+                    # read the source (a scheduled step of its own: 'parse'), call store with both
                     m0 = os.stat(self.src_path)
                     m0 = m0.st_mtime_ns if self.store_takes_ns else m0.st_mtime
-                    parse = Parse(self.read_source(), sver, pid)
-                    if self.store_takes_mtime:
-                        fn = (lambda cs=cs, parse=parse, m0=m0: cs.store(self.src_path, parse, m0))
-                    else:
-                        fn = (lambda cs=cs, parse=parse: cs.store(self.src_path, parse))
+
+                    def fn(cs=cs, m0=m0, sver=sver, pid=pid):
+                        w = cur()
+                        w.park('parse')
+                        w.parse = Parse(self.read_source(), sver, pid)
+                        if self.store_takes_mtime:
+                            return cs.store(self.src_path, w.parse, m0)
+                        return cs.store(self.src_path, w.parse)
                 elif op == 'load':
                     fn = (lambda cs=cs: cs.load(self.src_path))
                 else:
                     self.set_argv0(sver)
                     fn = (lambda: self.cs_mod.CacheStore() and None)
                 w = Worker(self, pid, op, sver, fn)
-                w.parse = parse
                 w.spawn_index = idx
+                w.v_spawn = self.ver
                 workers[pid] = w
                 w.start()           # it runs to its first system call and takes the schedule from there
                 return True
@@ -802,16 +730,23 @@ class Executor(object):
             stamp = rev.get(txt, 'unknown:' + txt[:20])
         tmps = []
         vtmps = 0
+        others = []
         for fn in sorted(os.listdir(self.tmpdir)):
-            if fn.startswith('g-ir-scanner-cache-version-'):
+            if fn.startswith(VTMP_PREFIX):
                 vtmps += 1
             else:
-                with open(os.path.join(self.tmpdir, fn), 'rb') as f:
+                others.append('TMPDIR/' + fn)       # the store's temporary file belongs in the cache directory
+        for fn in sorted(os.listdir(self.cachedir)):
+            path = os.path.join(self.cachedir, fn)
+            if path in (self.entry_path, self.stamp_path):
+                continue
+            if fn.startswith(TMP_PREFIX) and not fn.startswith(VTMP_PREFIX):
+                with open(path, 'rb') as f:
                     b = f.read()
                 ln, ident = self.identify(b)
                 tmps.append(ln)
-        others = sorted(fn for fn in os.listdir(self.cachedir)
-                        if os.path.join(self.cachedir, fn) not in (self.entry_path, self.stamp_path))
+            else:
+                others.append(fn)
         return {'trace': trace, 'procs': procs, 'entry': entry, 'stamp': stamp, 'tmps': sorted(tmps),
                 'vtmps': vtmps, 'ver': self.ver, 'clock': self.clock, 'stray_in_cachedir': others,
                 '_entry_is_initial': entry_is_initial}
@@ -860,15 +795,12 @@ def oracle(ctx, cnt, case, obs):
     mods_at = obs['_mods_at']
     key_case = 'schedule:' + json.dumps([init, evs], sort_keys=True, separators=(',', ':'))
     replay = {'kind': 'schedule', 'init': init, 'evs': evs}
+    reported = []
     for pid, w in workers.items():
         # --- nothing may escape
         if w.exc is not None:
             cnt.hit('oracle:raised')
-            key = key_case
-            if obs['_xdev'] and w.kind == 'store' and isinstance(w.exc, FileNotFoundError) and w.steps \
-                    and w.steps[-1][1] == 'copystat' and w.copy_open_idx is not None:
-                key = KEY_XRAISE        # the unchanged shutil.move fall-back: entry unlinked before copystat
-            ctx.report_failure(key, '%s of process %d raised %r under schedule %s (init %s)'
+            ctx.report_failure(key_case, '%s of process %d raised %r under schedule %s (init %s)'
                                % (w.kind, pid, w.exc, json.dumps(evs), json.dumps(init)), replay)
             continue
         if w.kind != 'load' or not w.finished or w.crashed:
@@ -885,19 +817,12 @@ def oracle(ctx, cnt, case, obs):
             continue
         # --- never older than the source (as of the start of the load)
         read_m = w.seen.get('read_mtime')
-        st = workers.get(r.op)
-        # cross-device copy by the unchanged shutil.move: did this load validate or read the entry
-        # between the open-truncate of the final name and copystat?
-        in_copy_window = bool(obs['_xdev'] and st is not None and st.kind == 'store'
-                              and st.copy_open_idx is not None
-                              and any(st.copy_open_idx < i and (st.copystat_idx is None or i < st.copystat_idx)
-                                      for i, _l in w.steps))
         # (the source's mtime is not monotone when a version is installed with a preserved older mtime: the
         # entry must not be older than EVERY version of the source that was current during the load)
         youngest_allowed = min(src_mtimes[v] for v in range(w.v_start, w.v_end + 1))
         if read_m is not None and read_m < youngest_allowed:
             cnt.hit('oracle:older-than-source')
-            ctx.report_failure(KEY_XSTALE if in_copy_window else key_case, 'load of process %d used an entry with mtime %d older than its source '
+            ctx.report_failure(key_case, 'load of process %d used an entry with mtime %d older than its source '
                                '(mtime >= %d throughout the load); schedule %s init %s'
                                % (pid, read_m, youngest_allowed, json.dumps(evs), json.dumps(init)), replay)
             continue
@@ -941,75 +866,68 @@ def oracle(ctx, cnt, case, obs):
             cnt.hit('oracle:fresh-ok')
             continue
         if r.op == -1 and not init_is_fresh(init):
-            # the schedule STARTS from an entry that already looks newer than its source while holding an older
-            # parse (hand-written corpus states only): no store of this history produced it, nothing to judge
+            # the schedule STARTS from a complete entry that carries the source's current mtime while holding an
+            # older parse (hand-written states only): no store of this history produced it, nothing to judge
             cnt.hit('oracle:outside:initial-entry-already-stale')
             continue
-        # classify by what happened on the REAL history
-        cls = None
-        if st is not None and st.kind == 'store' and st.dump_done is not None:
-            # (1) the source was modified between the read that produced the parse and the completion
-            #     of the temp file (whose mtime the entry carries)
-            if any(st.spawn_index < m < st.dump_done for m in mods_at):
-                cls = KEY_STAMP
-            # (2) cross-device copy by the unchanged shutil.move: read between open-truncate and copystat
-            elif in_copy_window:
-                cls = KEY_XSTALE
-        if cls is None and read_m is not None and any(
-                evs[m][0] == 'replace' and r.data < obs['_mod_version'][m] <= w.v_end
-                and src_mtimes[obs['_mod_version'][m]] <= read_m
-                and (st is None or st.dump_done is None or m > st.dump_done) for m in mods_at):
-            # (3) after the entry was complete the source was replaced by a file that carries an mtime
-            #     not later than the entry's
-            cls = KEY_OLDER
-        if cls is None and read_m is not None and r.data + 1 in src_mtimes and read_m == src_mtimes[r.data + 1] \
-                and any(evs[m] == ['modify', False] and obs['_mod_version'][m] == r.data + 1 for m in mods_at) \
-                and (st is None or st.dump_done is None or
-                     all(m > st.dump_done for m in mods_at if obs['_mod_version'][m] == r.data + 1)):
-            # (4) a modification WITHOUT a clock tick after the entry was stamped: equal timestamps
-            cls = KEY_EQUAL
+        # --- stale.  The one recorded class: two DISTINCT versions of the source carrying the SAME mtime were both
+        #     current between the spawn (= stat of the source) of the store that wrote the served entry and the end
+        #     of this load.  For an entry that was there initially, the version it was made from counts with the
+        #     mtime the entry carries (unless it is the initial version of the source with that very mtime).
+        st = workers.get(r.op) if r.op != -1 else None
+        stamps = []
+        if r.op == -1:
+            lo = init['ver']
+            e = init.get('entry')
+            if e and not (e[0] == init['ver'] and e[3] == init['src_mtime']):
+                stamps.append(e[3])
+        else:
+            lo = st.v_spawn if st is not None and st.v_spawn is not None else w.v_start
+        stamps += [src_mtimes[v] for v in range(lo, w.v_end + 1)]
+        same_mtime = len(set(stamps)) < len(stamps)
         what = ('load of process %d returned parse(v%d) but the source versions current during the load were '
-                'v%d..v%d; schedule %s init %s' % (pid, r.data, w.v_start, w.v_end, json.dumps(evs),
-                                                  json.dumps(init)))
-        if cls is not None:
-            cnt.hit('oracle:stale:' + cls.split(':')[1][:24])
-            ctx.coverage.setdefault('first_replay_per_finding', {}).setdefault(cls, replay)
-            ctx.report_failure(cls, what, replay)
+                'v%d..v%d (mtimes of the versions current since the entry\'s store was spawned: %s); schedule %s init %s'
+                % (pid, r.data, w.v_start, w.v_end, stamps, json.dumps(evs), json.dumps(init)))
+        if same_mtime:
+            cnt.hit('oracle:stale:two-versions-one-mtime')
+            ctx.coverage.setdefault('first_replay_per_finding', {}).setdefault(KEY_SAME, replay)
+            ctx.report_failure(KEY_SAME, what, replay)
+            reported.append(KEY_SAME)
         else:
             cnt.hit('oracle:stale:unclassified')
             ctx.report_failure(key_case, what, replay)
+            reported.append(key_case)
+    return reported
 
 
 # ------------------------------------------------------------------------------------------
 # generators
 # ------------------------------------------------------------------------------------------
 INITS = {
+    # entry = [parse of version, scanner version, chunks on disk (2 = complete), mtime]
     'empty': {'clock': 10, 'ver': 1, 'src_mtime': 5, 'entry': None, 'stamp': 7},
-    'fresh': {'clock': 10, 'ver': 1, 'src_mtime': 5, 'entry': [1, 7, 2, 8], 'stamp': 7},
+    'fresh': {'clock': 10, 'ver': 1, 'src_mtime': 5, 'entry': [1, 7, 2, 5], 'stamp': 7},
     'stale': {'clock': 10, 'ver': 1, 'src_mtime': 5, 'entry': [0, 7, 2, 3], 'stamp': 7},
-    'torn': {'clock': 10, 'ver': 1, 'src_mtime': 5, 'entry': [1, 7, 1, 9], 'stamp': 7},
-    'equal': {'clock': 10, 'ver': 1, 'src_mtime': 5, 'entry': [1, 7, 2, 5], 'stamp': 7},
-    'nostamp': {'clock': 10, 'ver': 1, 'src_mtime': 5, 'entry': [1, 7, 2, 8], 'stamp': None},
-    'emptyfile': {'clock': 10, 'ver': 1, 'src_mtime': 5, 'entry': [1, 7, 0, 9], 'stamp': 7},
+    'torn': {'clock': 10, 'ver': 1, 'src_mtime': 5, 'entry': [1, 7, 1, 5], 'stamp': 7},
+    'otherstamp': {'clock': 10, 'ver': 1, 'src_mtime': 5, 'entry': [1, 7, 2, 8], 'stamp': 7},
+    'nostamp': {'clock': 10, 'ver': 1, 'src_mtime': 5, 'entry': [1, 7, 2, 5], 'stamp': None},
+    'emptyfile': {'clock': 10, 'ver': 1, 'src_mtime': 5, 'entry': [1, 7, 0, 5], 'stamp': 7},
+    # the source was last modified in the CURRENT timestamp granule: one more modification without a clock
+    # tick gives a second version with the same mtime
+    'now-empty': {'clock': 10, 'ver': 1, 'src_mtime': 10, 'entry': None, 'stamp': 7},
+    'now-fresh': {'clock': 10, 'ver': 1, 'src_mtime': 10, 'entry': [1, 7, 2, 10], 'stamp': 7},
 }
-for _k in ('empty', 'fresh', 'stale', 'torn'):
-    INITS[_k + '-xdev'] = dict(INITS[_k], xdev=True)
 
 
 def random_case(rng):
-    init = dict(INITS[rng.choice(['empty', 'fresh', 'stale', 'torn', 'equal', 'nostamp', 'emptyfile', 'fresh',
-                                  'stale'])])
+    init = dict(INITS[rng.choice(['empty', 'fresh', 'stale', 'torn', 'otherstamp', 'nostamp', 'emptyfile', 'fresh',
+                                  'stale', 'now-empty', 'now-fresh'])])
     if rng.random() < 0.3:
         init['stamp'] = rng.choice([7, 8, None])
-    xdev = rng.random() < 0.25
-    if xdev:
-        init['xdev'] = True
     nops = rng.choice([1, 2, 3, 3, 3])
     ops = []
     for pid in range(nops):
         op = rng.choice(['store', 'store', 'load', 'load', 'check'])
-        if xdev and (op == 'check' or (op == 'store' and any(o[1] == 'store' for o in ops))):
-            op = 'load'         # cross-device mode: one publisher, no stamp writer (see assumptions)
         sver = 7 if rng.random() < 0.75 else 8
         ops.append([pid, op, sver])
     pending = list(ops)
@@ -1019,7 +937,7 @@ def random_case(rng):
     mods = rng.choice([0, 1, 1, 2])
     crashes = 1 if rng.random() < 0.25 else 0
     budget = 60
-    steps_left = dict((o[0], 14 if xdev else 9) for o in ops)
+    steps_left = dict((o[0], 11) for o in ops)
     while (pending or live) and budget > 0:
         budget -= 1
         r = rng.random()
@@ -1030,7 +948,7 @@ def random_case(rng):
         elif mods and r < 0.33:
             mods -= 1
             if rng.random() < 0.15:
-                evs.append(['replace', rng.choice([1, 4, 6, 9, 12])])
+                evs.append(['replace', rng.choice([1, 3, 5, 6, 10, 12])])
             else:
                 evs.append(['modify', rng.random() < 0.8])
         elif r < 0.38:
@@ -1056,36 +974,34 @@ def random_case(rng):
 
 ENUM_QUICK = [
     # (init name, ops, mods, crashes, tick, cap in the quick tier (None = all))
-    ('stale', [[0, 'store', 7], [1, 'load', 7]], 1, 0, True, None),
-    ('empty', [[0, 'store', 7], [1, 'load', 7]], 1, 0, True, None),
+    ('stale', [[0, 'store', 7], [1, 'load', 7]], 1, 0, True, 700),
+    ('empty', [[0, 'store', 7], [1, 'load', 7]], 1, 0, True, 500),
+    ('now-empty', [[0, 'store', 7], [1, 'load', 7]], 1, 0, False, 700),
     ('stale', [[0, 'store', 7]], 0, 1, True, None),
     ('fresh', [[0, 'store', 7], [1, 'load', 7]], 1, 0, True, 300),
     ('torn', [[0, 'store', 7], [1, 'load', 7]], 1, 0, True, 400),
     ('stale', [[0, 'store', 7], [1, 'store', 7]], 0, 0, True, 400),
     ('fresh', [[0, 'load', 7], [1, 'check', 8]], 1, 0, True, 400),
+    ('fresh', [[0, 'check', 8], [1, 'load', 8]], 0, 1, True, 400),
     ('torn', [[0, 'load', 7], [1, 'load', 7]], 1, 0, True, 300),
-    ('fresh', [[0, 'store', 7], [1, 'load', 7]], 1, 0, False, 300),
+    ('stale', [[0, 'store', 7], [1, 'check', 8]], 0, 0, True, 500),
     ('stale', [[0, 'store', 7], [1, 'load', 7]], 0, 1, True, 300),
-    ('stale-xdev', [[0, 'store', 7], [1, 'load', 7]], 1, 0, True, 700),
-    ('empty-xdev', [[0, 'store', 7], [1, 'load', 7]], 1, 0, True, 300),
 ]
 
 ENUM_THOROUGH = [
-    ('stale-xdev', [[0, 'store', 7], [1, 'load', 7]], 1, 1, True, None),
-    ('empty-xdev', [[0, 'store', 7], [1, 'load', 7]], 1, 1, True, None),
-    ('fresh-xdev', [[0, 'store', 7], [1, 'load', 7]], 1, 0, True, None),
-    ('torn-xdev', [[0, 'store', 7], [1, 'load', 7]], 1, 0, True, None),
     ('stale', [[0, 'store', 7], [1, 'load', 7]], 1, 1, True, None),
     ('empty', [[0, 'store', 7], [1, 'load', 7]], 2, 1, True, None),
+    ('now-empty', [[0, 'store', 7], [1, 'load', 7]], 2, 0, False, None),
+    ('now-fresh', [[0, 'store', 7], [1, 'load', 7]], 1, 1, False, None),
     ('torn', [[0, 'store', 7], [1, 'load', 7]], 1, 1, True, None),
     ('fresh', [[0, 'store', 7], [1, 'load', 7]], 1, 1, True, None),
-    ('stale', [[0, 'store', 7], [1, 'load', 7]], 1, 0, False, None),
-    ('equal', [[0, 'store', 7], [1, 'load', 7]], 1, 0, False, None),
+    ('otherstamp', [[0, 'store', 7], [1, 'load', 7]], 1, 0, True, None),
     ('emptyfile', [[0, 'store', 7], [1, 'load', 7]], 1, 0, True, None),
     ('stale', [[0, 'store', 7], [1, 'store', 7]], 0, 1, True, None),
     ('nostamp', [[0, 'check', 7], [1, 'check', 8]], 0, 1, True, None),
     ('fresh', [[0, 'load', 8], [1, 'check', 8]], 1, 1, True, None),
     ('stale', [[0, 'store', 7], [1, 'check', 8]], 0, 1, True, None),
+    ('stale', [[0, 'store', 7], [1, 'check', 8]], 1, 0, True, None),
 ]
 
 # scenarios too large to enumerate: uniformly random interleavings of the fixed operations
@@ -1093,15 +1009,15 @@ SAMPLED_THOROUGH = [
     ('stale', [[0, 'store', 7], [1, 'store', 7]], 1, 1),
     ('stale', [[0, 'store', 7], [1, 'load', 7], [2, 'load', 7]], 1, 0),
     ('stale', [[0, 'store', 7], [1, 'store', 7], [2, 'load', 7]], 1, 1),
+    ('now-empty', [[0, 'store', 7], [1, 'store', 7], [2, 'load', 7]], 2, 0),
     ('fresh', [[0, 'store', 7], [1, 'load', 7], [2, 'check', 8]], 1, 0),
     ('torn', [[0, 'load', 7], [1, 'load', 7], [2, 'store', 7]], 1, 1),
     ('fresh', [[0, 'store', 8], [1, 'check', 8], [2, 'load', 8]], 1, 1),
+    ('stale', [[0, 'store', 7], [1, 'check', 8], [2, 'load', 8]], 0, 1),
     ('nostamp', [[0, 'check', 7], [1, 'check', 8], [2, 'store', 7]], 0, 1),
-    ('stale-xdev', [[0, 'store', 7], [1, 'load', 7], [2, 'load', 7]], 1, 1),
-    ('fresh-xdev', [[0, 'store', 7], [1, 'load', 7], [2, 'load', 7]], 1, 0),
 ]
 
-MAXSTEPS = {'store': 13, 'load': 5, 'check': 7}
+MAXSTEPS = {'store': 11, 'load': 5, 'check': 10}
 
 
 def sampled_case(rng, name, ops, mods, crashes):
@@ -1118,7 +1034,7 @@ def sampled_case(rng, name, ops, mods, crashes):
         evs.append(seqs[i][pos[i]])
         pos[i] += 1
     for _ in range(mods):
-        evs.insert(rng.randint(0, len(evs)), ['replace', rng.choice([1, 4, 6, 9, 12])] if rng.random() < 0.1
+        evs.insert(rng.randint(0, len(evs)), ['replace', rng.choice([1, 3, 5, 6, 10, 12])] if rng.random() < 0.1
                    else ['modify', rng.random() < 0.85])
     if crashes and rng.random() < 0.5:
         pid = rng.choice(ops)[0]
@@ -1148,7 +1064,7 @@ def directed_cases(ex):
         init = INITS[name]
         n_a = len(solo_steps(ex, init, 'store', 7))
         # (which initial entry a load accepts depends on the freshness test: newer, or equal mtime)
-        n_l = max(len(solo_steps(ex, INITS[i], 'load', 7)) for i in ('fresh', 'equal'))
+        n_l = max(len(solo_steps(ex, INITS[i], 'load', 7)) for i in ('fresh', 'otherstamp'))
         for held in (1, 2):
             if n_a <= held:
                 continue
@@ -1159,7 +1075,7 @@ def directed_cases(ex):
                     evs += [['spawn', 2, 'load', 7]] + [['step', 2]] * k + [['step', 0]] * held
                     evs += [['step', 2]] * (n_l + 1 - k)
                     out.append({'init': init, 'evs': with_late_load(evs, 7), 'origin': 'directed:late-publish'})
-    for name in ('fresh', 'equal'):
+    for name in ('fresh', 'otherstamp'):
         init = INITS[name]
         n_c = len(solo_steps(ex, init, 'check', 8))
         for j in range(1, n_c + 1):
@@ -1242,6 +1158,52 @@ def gir_cache_equivalence(ctx, ex, cnt):
 
 
 # ------------------------------------------------------------------------------------------
+# the repaired findings, on real file systems, through the real call site
+# ------------------------------------------------------------------------------------------
+def regression_replays(ctx, cnt, tags=None):
+    """harness/c18_replays.py in a process of its own (it hooks shutil / tempfile / GIRParser): F0-F5 must pass
+    without any suppression; R1 is the recorded finding and is expected to reproduce"""
+    script = os.path.join(VERIF, 'harness', 'c18_replays.py')
+    want = tags or ['F0', 'F1', 'F2', 'F3', 'F4', 'F5', 'R1']
+    try:
+        p = subprocess.run([sys.executable, script] + want, stdout=subprocess.PIPE, stderr=subprocess.STDOUT,
+                           timeout=300, env=dict(os.environ, GIVERIF_REPO=REPO, PYTHONDONTWRITEBYTECODE='1'))
+        out = p.stdout.decode('utf-8', 'replace')
+    except subprocess.TimeoutExpired:
+        ctx.broken.append('c18_replays.py did not finish within 300 s')
+        return {}
+    res = {}
+    lines = out.splitlines()
+    for i, line in enumerate(lines):
+        parts = line.split()
+        if len(parts) >= 3 and parts[0] in want and parts[1] in ('ok', 'VIOLATED', 'skipped'):
+            res[parts[0]] = {'verdict': parts[1], 'key': parts[2],
+                             'details': lines[i + 1].strip() if i + 1 < len(lines) else ''}
+    for tag in want:
+        r = res.get(tag)
+        if r is None:
+            # the real call site / entry points have changed or the replay crashed: report, keep going
+            ctx.broken.append('correspondence c18.replays: replay %s did not run to a verdict: %s' % (tag, out[-600:]))
+            continue
+        cnt.hit('replay:%s:%s' % (tag, r['verdict']))
+        rep = {'kind': 'replay', 'tag': tag}
+        if tag == 'F0':
+            if r['verdict'] == 'VIOLATED':
+                ctx.broken.append('the cache is never hit on an unchanged file (%s): every freshness check is '
+                                  'vacuously true' % r['details'])
+        elif tag == 'R1':
+            if r['verdict'] == 'VIOLATED':
+                ctx.report_failure(KEY_SAME, 'real call site, real file system: ' + r['details'], rep)
+        elif r['verdict'] == 'VIOLATED':
+            ctx.report_failure('replay:%s:%s' % (tag, r['key']),
+                               'a repaired finding reproduces on the real call site and file systems (%s): %s'
+                               % (r['key'], r['details']), rep)
+        elif r['verdict'] == 'skipped':
+            ctx.notes.append('replay %s not covered: %s' % (tag, r['details']))
+    return res
+
+
+# ------------------------------------------------------------------------------------------
 def load_corpus():
     out = []
     cpath = os.path.join(VERIF, 'corpus', 'C18')
@@ -1290,7 +1252,7 @@ def _run_chunk(ctx, ex, cnt, cases, state):
             cnt.hit('syscall:' + l)
         for _pid, st in a['procs']:
             cnt.hit('outcome:' + st['status'] + (':value' if st.get('ret') else ''))
-        cnt.hit('hist_ok:%s' % m['hist_ok'])
+        cnt.hit('distinct_mtimes:%s' % m['distinct_mtimes'])
         for kind in set(e[0] if e[0] != 'modify' else 'modify:%s' % ('tick' if e[1] else 'same-granule')
                         for e in c['evs'] if e[0] in ('modify', 'replace', 'crash')):
             cnt.hit('case-with:' + kind)
@@ -1305,13 +1267,18 @@ def _run_chunk(ctx, ex, cnt, cases, state):
             state['disagreeing'].append(c)
         if obs['stray_in_cachedir']:
             cnt.hit('stray-file-in-cachedir')
-        oracle(ctx, cnt, c, obs)
-        # the model's own verdict must agree with the hypothesis bookkeeping of the theorems:
-        # a stale value on a history the partial theorem covers would contradict the proof
+        reported = oracle(ctx, cnt, c, obs)
+        # the classifier of the recorded class and the hypothesis of C18_fresh_partial must agree: a history routed
+        # to the known finding has two versions with one mtime, i.e. violates histDistinctMtimes
+        if KEY_SAME in reported and m['distinct_mtimes']:
+            ctx.broken.append('the oracle routed a stale load to %s on a history that satisfies histDistinctMtimes: %s'
+                              % (KEY_SAME, json.dumps(c)))
+        # the model's own verdict must agree with the theorem: a stale value on a history the partial theorem
+        # covers would contradict the proof
         for _pid, st in b['procs']:
             r = st.get('ret')
-            if r and m['hist_ok'] and not (r['v_start'] <= r['data'] <= r['v_end']) \
-                    and init_is_fresh(c['init']) and not c['init'].get('xdev'):
+            if r and m['distinct_mtimes'] and not (r['v_start'] <= r['data'] <= r['v_end']) \
+                    and init_is_fresh(c['init']):
                 ctx.broken.append('model returns a stale parse on a history satisfying the hypotheses of '
                                   'C18_fresh_partial: %s' % json.dumps(c))
         if len(state['samples']) < 4 and len(labels) >= 6:
@@ -1319,11 +1286,12 @@ def _run_chunk(ctx, ex, cnt, cases, state):
 
 
 def init_is_fresh(init):
+    """the initial entry is not a complete stale parse that carries the source's current mtime (Lean: InitF)"""
     e = init.get('entry')
     if not e:
         return True
     d, _sv, ln, mt = e
-    return mt <= init['clock'] and (ln != 2 or d >= init['ver'] or mt < init['src_mtime'])
+    return not (ln == 2 and mt == init['src_mtime'] and d != init['ver'])
 
 
 def neighbours(case):
@@ -1416,6 +1384,9 @@ def run(ctx):
                 cnt.hit('search:neighbour')
     finally:
         ex.uninstall()
+    # ---- the repaired findings and the recorded one on real file systems (subprocess, nothing patched here)
+    replays = regression_replays(ctx, cnt)
+    ctx.log('replays on real file systems: %s' % dict((k, v['verdict']) for k, v in sorted(replays.items())))
     # ---- cache on/off equivalence of the emitted GIR (real pipeline, nothing patched)
     try:
         gir = gir_cache_equivalence(ctx, ex, cnt)
@@ -1442,20 +1413,22 @@ def run(ctx):
         'traces_validated_against_impl': state['n'] - state['disagree'],
         'disagreements': state['disagree'],
         'gir_cache_equivalence': gir,
+        'replays_on_real_file_systems': replays,
         'notes': ctx.notes,
         'pending_findings': [p['key'] for p in PENDING_FINDINGS],
     })
     ctx.assumptions.extend([
         'POSIX file-system semantics: rename is atomic, an open file survives unlink/rename, stat returns the mtime '
         'last set (exercised on the real scratch file system by the executor, not proved)',
-        'tempfile.mkstemp creates its files outside the cache directory (TMPDIR). Same-device mode: shutil.move is one '
-        'rename (all theorems). Cross-device mode (schedule flag xdev): renames TMPDIR -> cache directory fail with '
-        'EXDEV inside the proxies and the copy fall-back of CPython\'s shutil.move (copyfile = open-truncate in place + '
-        'two write chunks + close, copystat = utime by path, unlink) is TRANSCRIBED in the proxy step by step, not run '
-        'from the standard library; modelled (Lean: xOpen..xUnlink) and compared, violated clauses are witnesses',
-        'cross-device mode is explored with at most one publishing store per schedule and without version checks: two '
-        'concurrent in-place copies interleave at byte level (possible mixed pickle) and the stamp file would be '
-        'copied non-atomically too; both are outside the content abstraction of the model and NOT explored',
+        'the temporary file of a store is created in the cache directory (checked: a temporary file found in TMPDIR is '
+        'reported as a stray file and disagrees with the model) under a name that does not collide with an earlier '
+        'one; the executor makes these names increase with creation so that a purge lists them in creation order',
+        'the temporary file of the version stamp is created in TMPDIR, assumed on the same file system as the cache '
+        'directory (shutil.move = one rename); a stamp copied across devices is not explored (it can only cause '
+        'additional purges)',
+        'the call site is driven as Transformer._parse_include drives it: os.stat of the source at spawn, the read of '
+        'the source as one atomic step, store(filename, parse, mtime); the real call site is exercised by '
+        'harness/c18_replays.py and by the cold/warm GIR equivalence run',
         'one system call = one atomic step; pickle.load is one step (a reader is never interleaved inside a read); '
         'pickle.dump is two write steps',
         'pickle: a complete serialisation unpickles, a strict prefix never does (checked on every torn file the '
@@ -1463,8 +1436,9 @@ def run(ctx):
         'the source file exists throughout; its mtime is either the time of its last modification (event modify) or '
         'a time the new file carries with it (event replace, e.g. an installed file with its build time preserved)',
         'mtimes are set from a logical clock with os.utime; real timestamp granularity enters only through the '
-        'modify-without-tick event',
-        'ENOSPC / EACCES branches of store and _check_cache_version are not exercised',
+        'modify-without-tick event; the mtime comparison is exact (whole seconds of the logical clock, no float '
+        'rounding: the code compares st_mtime_ns)',
+        'ENOSPC / EACCES branches of store (mkstemp, dump, utime/replace) and _check_cache_version are not exercised',
         'the scanner version is steered through the mtime of sys.argv[0] (an input of _get_versionhash)',
     ])
 
@@ -1473,6 +1447,15 @@ def replay(ctx, rep):
     for p in PENDING_FINDINGS:
         ctx.known.append(dict(p, status='known', property='C18'))
     r = rep.get('replay') or {}
+    if r.get('kind') == 'replay':
+        cnt = Counter()
+        res = regression_replays(ctx, cnt, [r['tag']])
+        print(json.dumps(res, indent=1))
+        for h in ctx.known_hits:
+            print('KNOWN-FINDING: property=C18 %s [%s]' % (h['what'], h['key']))
+        for v in ctx.violations:
+            print('VIOLATION property=C18 %s' % v['what'])
+        return 1 if ctx.violations else 0
     if r.get('kind') != 'schedule':
         print('nothing to replay: %s' % (rep.get('no_longer_checks') or r, ))
         return 2
